@@ -81,6 +81,7 @@ func runC06(r *fw.Run, p *fw.Program) {
 	c06NilField(r, p)
 	c06ExploreArrays(p)
 	c06ExploreNilField(p)
+	c06ExploreRecSeek(p)
 	c06Sym(r, p)
 	c06OutType(r, p)
 	c06DebugSSA(p)
